@@ -119,17 +119,56 @@ func (w *World) verifyFunc(fn *ssa.Function, c *FuncContract) (rep *FuncReport) 
 		fr.vals[fv] = v
 		e.assume(st, e.wf(v, alloc0))
 	}
+	// captured variables are distinct cells
+	for i, a := range fn.FreeVars {
+		ta := derefType(a.Type())
+		if ta == nil {
+			continue
+		}
+		pa := fr.vals[a].term()
+		e.assume(st, fmt.Sprintf("(and (> %s 0) (<= (+ %s %d) %s))", pa, pa, sizeOf(ta), alloc0))
+		for j := i + 1; j < len(fn.FreeVars); j++ {
+			b := fn.FreeVars[j]
+			tb := derefType(b.Type())
+			if tb == nil {
+				continue
+			}
+			pb := fr.vals[b].term()
+			e.assume(st, fmt.Sprintf("(or (<= (+ %s %d) %s) (<= (+ %s %d) %s))", pa, sizeOf(ta), pb, pb, sizeOf(tb), pa))
+		}
+	}
 	e.flush(st)
 	fr.entry = st.clone()
 	env := &SpecEnv{e: e, cur: st, old: fr.entry, vars: map[string]*Val{}, pkg: funcPkgPath(fn), fr: fr}
 	for _, cl := range c.Requires {
 		e.specAssume(st, cl.E, env)
 	}
+	for _, cl := range c.CbInv {
+		e.specAssume(st, cl.E, env)
+	}
+	if fn.Parent() != nil {
+		for _, cl := range c.Requires {
+			e.note("closure precondition (an assumption about the code that invokes the callback): %s", cl.Src)
+		}
+	}
 	e.flush(st)
 	// vacuity: the precondition must be satisfiable
 	e.obls = append(e.obls, &Obligation{Name: e.fnName + "/vacuity", Kind: "vacuity", Hyp: st.reach, NFacts: len(e.facts), Goal: "", ExpectSat: true, Props: c.Props, Fn: e.fnName, Desc: "requires are satisfiable"})
 	fr.entry.reach = st.reach
+	if len(c.CbInv) > 0 {
+		// callback invariants are proved on every return path separately (no merged heaps)
+		e.retHook = func(rst *State, rres *Val) {
+			vars := map[string]*Val{}
+			e.bindResults(vars, rres, fn.Signature)
+			renv := &SpecEnv{e: e, cur: rst, old: fr.entry, vars: vars, pkg: funcPkgPath(fn), fr: fr}
+			for _, cl := range c.CbInv {
+				st2 := rst.clone()
+				e.specOblige(st2, "cbinv-preserve", cl.E, renv, "callback invariant preserved: "+cl.Src, cl.Props)
+			}
+		}
+	}
 	final, res := e.runBody(fr, st.clone())
+	e.retHook = nil
 	e.flush(final)
 	if !final.dead() {
 		vars := map[string]*Val{}
@@ -158,6 +197,7 @@ func (w *World) verifyFunc(fn *ssa.Function, c *FuncContract) (rep *FuncReport) 
 			st2 := final.clone()
 			e.specOblige(st2, "post", cl.E, penv, cl.Src, cl.Props)
 		}
+
 		if c.NoFrame {
 			e.note("frame (modifies clause) of %s is NOT verified (noframe): callers assume it", e.fnName)
 		} else {
